@@ -172,6 +172,41 @@ func evaluate(x []byte, fail func(sig, msg string)) (nontrivial bool) {
 			}
 		}
 	}
+	// the same bytes as ONE text message to the real WebSocket transport
+	rw := codec.ReceiveWS([][]byte{x}, 2)
+	if rw.Panic != "" {
+		nontrivial = true
+		fail("decode-panic:"+rw.Site, "websocket Transport.Receive panicked: "+rw.Panic)
+	}
+	if len(rw.Envs) > 1 {
+		fail("ws-split", "the websocket transport returned more envelopes than messages")
+	}
+	for _, e := range rw.Envs[:min(1, len(rw.Envs))] {
+		nontrivial = true
+		kind := codec.KindOf(e)
+		b2, err, pan := codec.Marshal(e)
+		if pan != "" {
+			fail("reencode-panic:"+kind, fmt.Sprintf("json.Marshal of the %s received over websocket panicked: %s", kind, pan))
+			continue
+		}
+		if err != nil {
+			fail("reencode-error:"+short(err), fmt.Sprintf("the websocket transport accepted a %s that cannot be encoded again: %v", kind, err))
+			continue
+		}
+		rw2 := codec.ReceiveWS([][]byte{b2}, 2)
+		switch {
+		case rw2.Panic != "":
+			fail("decode-panic:"+rw2.Site, "websocket Transport.Receive of a re-encoding panicked: "+rw2.Panic)
+		case len(rw2.Envs) != 1:
+			fail("reencode-rejected:"+short(rw2.Err), fmt.Sprintf("the websocket transport accepted a %s whose re-encoding %s it rejects: %v", kind, clip(b2), rw2.Err))
+		default:
+			if k2 := codec.KindOf(rw2.Envs[0]); k2 != kind {
+				fail("reencode-kind:"+kind+"->"+k2, fmt.Sprintf("a %s received over websocket re-encodes to %s which is received as a %s", kind, clip(b2), k2))
+			} else if d := codec.Diff(codec.Canon(e), codec.Canon(rw2.Envs[0])); d != "" {
+				fail("reencode-differs:"+d, fmt.Sprintf("websocket %s: receiving the re-encoding %s differs from the accepted envelope at %s", kind, clip(b2), d))
+			}
+		}
+	}
 	return
 }
 
